@@ -450,3 +450,87 @@ Fixpoint run_ops (st : state) (ops : list op) : list (res (state * output)) :=
   end.
 
 End WithSettings.
+
+(* ==========================================================================
+   The event queue as heapq keeps it: a binary heap in a Python list
+   (events.py SimulatorState.event_heap; CPython Lib/heapq.py heappush / heappop /
+   heapify with _siftdown / _siftup).  Entries compare as the tuples
+   (time, insertion counter, event): counters are unique, so [key_ltb] decides.
+   The simulation model above keeps the same events in a list sorted by that
+   key; proofs/SimHeapProofs.v relates the two.
+   ========================================================================== *)
+Definition hdummy : hentry := mkH 0 0 0 EvStop.
+
+(* heapq._siftdown(heap, startpos, pos) with newitem = heap[pos]; fuel >= pos *)
+Fixpoint bh_siftdown (fuel : nat) (a : list hentry) (startpos pos : nat) (newitem : hentry) : list hentry :=
+  match fuel with
+  | O => set_nth pos newitem a
+  | S f =>
+      if Nat.ltb startpos pos then
+        let pp := Nat.div2 (pos - 1) in
+        let parent := nth pp a hdummy in
+        if key_ltb newitem parent then bh_siftdown f (set_nth pos parent a) startpos pp newitem
+        else set_nth pos newitem a
+      else set_nth pos newitem a
+  end.
+
+(* heapq.heappush *)
+Definition bh_push (a : list hentry) (x : hentry) : list hentry :=
+  let a' := a ++ [x] in bh_siftdown (length a') a' 0 (length a) x.
+
+(* first loop of heapq._siftup: bubble the smaller child up until a leaf is hit *)
+Fixpoint bh_leafward (fuel : nat) (a : list hentry) (endpos pos : nat) : list hentry * nat :=
+  match fuel with
+  | O => (a, pos)
+  | S f =>
+      let c := (2 * pos + 1)%nat in
+      if Nat.ltb c endpos then
+        let r := (c + 1)%nat in
+        let c' := if Nat.ltb r endpos && negb (key_ltb (nth c a hdummy) (nth r a hdummy)) then r else c in
+        bh_leafward f (set_nth pos (nth c' a hdummy) a) endpos c'
+      else (a, pos)
+  end.
+
+(* heapq._siftup(heap, pos) *)
+Definition bh_siftup (a : list hentry) (pos : nat) : list hentry :=
+  let newitem := nth pos a hdummy in
+  let '(a1, p) := bh_leafward (length a) a (length a) pos in
+  bh_siftdown (length a) (set_nth p newitem a1) pos p newitem.
+
+(* heapq.heappop: None = IndexError on an empty heap *)
+Definition bh_pop (a : list hentry) : option (hentry * list hentry) :=
+  match rev a with
+  | [] => None
+  | lastelt :: rinit =>
+      match rev rinit with
+      | [] => Some (lastelt, [])
+      | top :: rest => Some (top, bh_siftup (lastelt :: rest) 0)
+      end
+  end.
+
+(* heapq.heapify: for i in reversed(range(n // 2)): _siftup(x, i) *)
+Definition bh_heapify (a : list hentry) : list hentry :=
+  fold_left (fun acc i => bh_siftup acc i) (rev (seq 0 (Nat.div2 (length a)))) a.
+
+(* SimulatorState.push / remove_events / next_until on the array *)
+Definition bh_state := (list hentry * nat)%type.      (* event_heap, events_added *)
+Definition bhs_push (s : bh_state) (t : nat) (ev : event) (time : Q) : bh_state :=
+  (bh_push (fst s) (mkH time (snd s) t ev), S (snd s)).
+Definition bhs_remove (s : bh_state) (t : nat) : bh_state :=
+  (bh_heapify (remove_events t (fst s)), snd s).
+Definition bhs_next_until (s : bh_state) (until : Q) : option hentry * bh_state :=
+  match fst s with
+  | [] => (None, s)
+  | top :: _ =>
+      if Qleb (h_time top) until then
+        match bh_pop (fst s) with
+        | Some (x, a') => (Some x, (a', snd s))
+        | None => (None, s)
+        end
+      else (None, s)
+  end.
+
+(* the heap condition of heapq: a[k] <= a[2k+1] and a[k] <= a[2k+2], as a boolean check *)
+Definition key_leb (x y : hentry) : bool := negb (key_ltb y x).
+Definition is_heap_b (a : list hentry) : bool :=
+  forallb (fun i => key_leb (nth (Nat.div2 (i - 1)) a hdummy) (nth i a hdummy)) (seq 1 (length a - 1)).
